@@ -199,6 +199,7 @@ def run_real(case: dict) -> list[str]:
     old = signal.signal(signal.SIGALRM, _alarm)
     signal.setitimer(signal.ITIMER_REAL, 20.0)
     chunks_used: list[bytes] = []
+    keep = sd.Retain()      # the reported errors are retained: the remainder they carry is read again at the end of the run
     try:
         if mode == "oneshot":
             proto = DatagramProtocol(sers.build(spec))
@@ -227,7 +228,7 @@ def run_real(case: dict) -> list[str]:
                         return True
                     except StreamProtocolParseError as e:
                         _note(e)
-                        lines.append(sd.err_line(e))
+                        keep.add_err(e, lines)
                     except _Hang:
                         raise
                     except BaseException as e:  # noqa: BLE001
@@ -266,6 +267,7 @@ def run_real(case: dict) -> list[str]:
                     i += n
                     if not deliver(consumer.next, n):
                         break
+        keep.finish(lines)
     except _Hang:
         lines.append("hang")
     finally:
@@ -290,7 +292,7 @@ def model_input(case: dict, real: list[str]):
         return None
     head = sers.model_head(case["spec"], path, case.get("hint", 0))
     aux = _aux.get(core.case_digest(case))
-    if head is None or aux is None or any(ln.startswith(("escape", "hang", "loop")) for ln in real):
+    if head is None or aux is None or any(ln.startswith(("escape", "hang", "loop", "mutated")) for ln in real):
         return None
     op = "feed" if path == "copy" else "fill"
     return head, [f"{op} {core.hexs(c)}" for c in aux["chunks"]]
@@ -318,6 +320,9 @@ def oracle(case: dict, real: list[str]) -> str | None:
     for ln in real:
         if ln.startswith(("escape", "hang", "loop", "harness-exc")):
             return f"{ln} (entry point {case['mode']})"
+    why = sd.mutated(real)
+    if why:
+        return f"{why} (entry point {case['mode']})"
     n = len(bytes.fromhex(case["data"]))
     items = [ln for ln in real if ln.startswith(("pkt", "err"))]
     if case["mode"] != "oneshot" and len(items) > n:
@@ -569,6 +574,13 @@ def corpus() -> list[dict]:
     b64 = {"k": "b64", "inner": js, "alphabet": "urlsafe", "checksum": True, "separator": "0d0a", "limit": 65536}
     for mode in ("oneshot", "copy", "buffered"):
         out.append({"spec": b64, "mode": mode, "data": b"!!!!\r\nQUJD\r\n====\r\n".hex(), "cuts": [3], "hint": 8, "origin": "random"})
+    # fixed defect (de9e321): the error raised by the buffered consumer carried a view of the receive buffer (overwritten at once)
+    out.append({"spec": {"k": "line", "newline": "LF", "keep_end": False, "encoding": "utf-8", "limit": 64}, "mode": "buffered",
+                "data": b"\xff\xfe\nrest!XYZ and more data".hex(), "cuts": [4096], "hint": 1024, "origin": "random"})
+    out.append({"spec": {"k": "line", "newline": "CRLF", "keep_end": True, "encoding": "utf-8", "limit": 64, "debug": True},
+                "mode": "buffered", "data": "ff0d0a6bc30d0a", "cuts": [5], "hint": 8, "origin": "random"})
+    out.append({"spec": {"k": "autosep", "sep": "3c7c3e", "limit": 16, "check": True, "debug": True}, "mode": "buffered",
+                "data": "ff61623c7c3e6f6b3c7c3e7878787878787878787878", "cuts": [4096], "hint": 8, "origin": "random"})
     out += _debug_corpus()
     out += _codec_corpus()
     out += _hostile_pickles()
